@@ -890,7 +890,7 @@ func ruleSortLess2(c *Ctx) {
 // ---------- INTGUARD ----------
 
 func ruleIntGuard1(c *Ctx) {
-	c.R.Rule("INTGUARD-1", 3, "every call of NumVal.Int() lies in the then-branch of IsInt() on the same receiver, and IsInt is a conjunction of an integrality test and a magnitude bound <= 2^63 (constant-evaluated): no float outside int64 is rendered, keyed or emitted through the int64 conversion")
+	c.R.Rule("INTGUARD-1", 1, "every call of NumVal.Int() lies in the then-branch of IsInt() on the same receiver, and IsInt is a conjunction of an integrality test and a magnitude bound <= 2^63 (constant-evaluated): no float outside int64 is rendered, keyed or emitted through the int64 conversion")
 	// IsInt shape
 	fd := c.FuncDecl("val", "NumVal.IsInt")
 	if fd == nil {
@@ -1015,8 +1015,69 @@ func ruleIntGuard2(c *Ctx) {
 				return true
 			}
 			owner := c.ownerOf(pk, file, ce.Pos())
+			var enclFn ast.Node
+			for i := len(stack) - 1; i >= 0 && enclFn == nil; i-- {
+				switch f := stack[i].(type) {
+				case *ast.FuncDecl:
+					owner = fnName(short(pk.PkgPath), f) // by nesting, not by position: inlined code keeps foreign positions
+					enclFn = f
+				case *ast.FuncLit:
+					enclFn = f
+				}
+			}
 			desc := "conversion " + src(ce.Fun) + "(float)"
 			par := stack[len(stack)-2]
+			// guarded like NumVal.Int under NumVal.IsInt, written out: the conversion is control-dependent on an integrality test
+			// and a magnitude bound <= 2^63 of the very operand
+			if enclFn != nil && to.Kind() == types.Int64 {
+				var body *ast.BlockStmt
+				switch f := enclFn.(type) {
+				case *ast.FuncDecl:
+					body = f.Body
+				case *ast.FuncLit:
+					body = f.Body
+				}
+				x := src(ce.Args[0])
+				integral, bounded := false, false
+				var split func(e ast.Expr, pos bool)
+				split = func(e ast.Expr, pos bool) {
+					e = unparen(e)
+					if b, ok := e.(*ast.BinaryExpr); ok && b.Op == token.LAND && pos {
+						split(b.X, pos)
+						split(b.Y, pos)
+						return
+					}
+					b, ok := e.(*ast.BinaryExpr)
+					if !ok || !pos {
+						return
+					}
+					if b.Op == token.EQL {
+						for _, pr := range [][2]ast.Expr{{b.X, b.Y}, {b.Y, b.X}} {
+							if call, ok := unparen(pr[0]).(*ast.CallExpr); ok && len(call.Args) == 1 && src(pr[1]) == x && src(call.Args[0]) == x {
+								if nm := c.calleeName(call); nm == "math.Trunc" || nm == "math.Floor" || nm == "math.Round" {
+									integral = true
+								}
+							}
+						}
+					}
+					if b.Op == token.LSS {
+						if call, ok := unparen(b.X).(*ast.CallExpr); ok && c.calleeName(call) == "math.Abs" && len(call.Args) == 1 && src(call.Args[0]) == x {
+							if v := c.constOf(b.Y); v != nil && constant.Compare(v, token.LEQ, constant.Shift(constant.MakeInt64(1), token.SHL, 63)) {
+								bounded = true
+							}
+						}
+					}
+				}
+				if body != nil {
+					for _, pc := range c.buildCFG(body).condsAt(ce) {
+						split(pc.e, pc.pos)
+					}
+				}
+				if integral && bounded {
+					c.R.OK(owner, desc+" of an integral value below 2^63", ce.Pos(), "control-dependent on `x == math.Trunc(x) && math.Abs(x) < 2^63` of the converted operand: exact")
+					return true
+				}
+			}
 			// operand of %
 			if be, ok := par.(*ast.BinaryExpr); ok && be.Op == token.REM {
 				if r, ok := intConvFrozen[owner]; ok {
